@@ -466,11 +466,7 @@ def run_routes(d, rng, malformed=False, backends=("core", "einsum")):
     obs, unstable, histories = [], [], []
     base0 = views_of(d, malformed)
     for be in backends:
-        base = base0
-        if malformed and be == "einsum" and d["kind"] in ("tucker", "ttm"):
-            # np.einsum broadcasts size-1 core modes / sums open boundary ranks: the raw einsum reconstruction routes do not
-            # validate their input; the rejection half is compared on the validators (and on the core backend routes)
-            base = [v for v in base0 if v[0] == "validate"]
+        base = base0   # (np.einsum broadcasts size-1 core modes / sums open boundary ranks: modelled, see tucker_to_tensor_einsum_b / ein_chain)
         tenalg.set_backend(be)
         try:
             for kind in ("tuple", "wrapper"):
@@ -763,6 +759,18 @@ def gen_malformed(tier, rng):
         yield dict(kind="tucker", core=rint(rng, (rk[0],)), fs=[tf[0]], why="a single factor", views=V)
         bad3 = list(tf); bad3[j] = rint(rng, (s[j], rk[j], 1))
         yield dict(kind="tucker", core=core, fs=bad3, why="3-D factor", views=V)
+        # operands np.einsum can broadcast (the core route refuses them): a size-1 core mode against an R-column factor, a one-column
+        # factor against a core mode of size c > 1; and a superfluous factor that is skipped
+        ob = rng.randint(2, 3); sb = [rng.randint(1, 3) for _ in range(ob)]; rb = [rng.randint(2, 3) for _ in sb]; jb = rng.randrange(ob)
+        rb1 = list(rb); rb1[jb] = 1
+        yield dict(kind="tucker", core=rint(rng, rb1), fs=[rint(rng, (n, r)) for n, r in zip(sb, rb)], why="size-1 core mode against a factor with several columns",
+                   skip=(rng.choice([x for x in range(ob) if x != jb]) if rng.random() < 0.3 else None))
+        fb = [rint(rng, (n, r)) for n, r in zip(sb, rb)]; fb[jb] = rint(rng, (sb[jb], 1))
+        yield dict(kind="tucker", core=rint(rng, rb), fs=fb, why="one-column factor against a core mode of size > 1")
+        fbt = [f.T.copy() for f in fb]
+        yield dict(kind="tucker", core=rint(rng, rb), fs=fbt, tr=True, why="one-row factor (transpose_factors) against a core mode of size > 1")
+        yield dict(kind="tucker", core=rint(rng, rb), fs=[rint(rng, (n, r)) for n, r in zip(sb, rb)] + [rint(rng, (2, 2))], skip=ob,
+                   why="more factors than core modes, the superfluous one skipped")
         # --- TT
         o = rng.randint(1, 3); s = [rng.randint(1, 3) for _ in range(o)]
         rk = [1] + [rng.randint(1, 3) for _ in range(o - 1)] + [1]
@@ -774,6 +782,10 @@ def gen_malformed(tier, rng):
             cs[i] = rint(rng, (rk[i], s[i], rk[i + 1] + 1)); yield dict(kind="tt", cores=cs, why="consecutive ranks differ")
             if rk[i + 1] >= 2:
                 cs = mkc(rk); cs[i] = rint(rng, (rk[i], s[i], rk[i + 1] - 1)); yield dict(kind="tt", cores=cs, why="consecutive ranks differ (smaller)")
+        # first boundary rank r0 > 1 whose product with the next rank is the left rank of the second core: the reshape / dot chain of
+        # tt_to_tensor goes through (no validation inside)
+        r0b = rng.choice([2, 3]); r1b = rng.choice([1, 2]); nb = [rng.randint(1, 3) for _ in range(2)]
+        yield dict(kind="tt", cores=[rint(rng, (r0b, nb[0], r1b)), rint(rng, (r0b * r1b, nb[1], 1))], why="first boundary rank is not 1 (the products of the ranks happen to fit)")
         cs = mkc(rk); i = rng.randrange(o); cs[i] = rint(rng, (rk[i], s[i])); yield dict(kind="tt", cores=cs, why="2-D core", views=V)
         cs = mkc(rk); cs[i] = rint(rng, (rk[i], s[i], 1, rk[i + 1])); yield dict(kind="tt", cores=cs, why="4-D core", views=V)
         # --- TR
@@ -790,10 +802,13 @@ def gen_malformed(tier, rng):
         n = rng.randint(1, 2); ins = [rng.randint(1, 2) for _ in range(n)]; outs = [rng.randint(1, 3) for _ in range(n)]
         rk = [1] + [rng.randint(1, 3) for _ in range(n - 1)] + [1]
         mk4 = lambda rk: [rint(rng, (rk[i], ins[i], outs[i], rk[i + 1])) for i in range(n)]
-        b = list(rk); b[0] = 2; yield dict(kind="ttm", cores=mk4(b), why="first boundary rank is not 1", views=V)
-        b = list(rk); b[-1] = 3; yield dict(kind="ttm", cores=mk4(b), why="last boundary rank is not 1", views=V)
+        b = list(rk); b[0] = 2; yield dict(kind="ttm", cores=mk4(b), why="first boundary rank is not 1")
+        b = list(rk); b[-1] = 3; yield dict(kind="ttm", cores=mk4(b), why="last boundary rank is not 1")
         if n >= 2:
-            cs = mk4(rk); cs[0] = rint(rng, (1, ins[0], outs[0], rk[1] + 1)); yield dict(kind="ttm", cores=cs, why="consecutive ranks differ", views=V)
+            cs = mk4(rk); cs[0] = rint(rng, (1, ins[0], outs[0], rk[1] + 1)); yield dict(kind="ttm", cores=cs, why="consecutive ranks differ")
+        ins2 = [rng.randint(1, 2) for _ in range(2)]; outs2 = [rng.randint(1, 2) for _ in range(2)]; rr = rng.choice([2, 3])
+        yield dict(kind="ttm", cores=[rint(rng, (1, ins2[0], outs2[0], rr)), rint(rng, (1, ins2[1], outs2[1], 1))], why="inner rank r against a next core of left rank 1")
+        yield dict(kind="ttm", cores=[rint(rng, (1, ins2[0], outs2[0], 1)), rint(rng, (rr, ins2[1], outs2[1], 1))], why="inner rank 1 against a next core of left rank r")
         cs = mk4(rk); cs[0] = rint(rng, (1, ins[0], rk[1])); yield dict(kind="ttm", cores=cs, why="3-D core", views=V)
         # --- PARAFAC2
         I = rng.randint(1, 3); R = rng.randint(1, 3); K = rng.randint(1, 3)
@@ -879,11 +894,38 @@ def well_formed_py(d):
 # __setitem__ stores an array of another shape (CPTensor.to_tensor then folds with the stale shape) - kept as a known finding (the
 # repair would reject the intermediate state of a legitimate two-step replacement); (2) 1-D CP factors were accepted by the
 # validator but no un-masked reconstruction worked - repaired in /repo by 148e558.
+# Round 5: the reconstruction FUNCTIONS of Tucker / TT / TR / TT-matrix do not validate their input (cp_to_tensor and the PARAFAC2
+# functions do).  Most invalid sets still fail inside (a dot / reshape error), but (a) under the einsum tenalg backend np.einsum
+# broadcasts size-1 dimensions and sums open boundary ranks, (b) tt_to_tensor's reshape / dot chain goes through when the rank products
+# happen to fit.  Classified known finding (model: tucker_to_tensor_einsum_b, ein_chain, tt_to_tensor; theorems C03_*_refuted).
+SILENT_EP = {"tucker": "tensorly.tucker_tensor.tucker_to_tensor", "tt": "tensorly.tt_tensor.tt_to_tensor", "tr": "tensorly.tr_tensor.tr_to_tensor",
+             "ttm": "tensorly.tt_matrix.tt_matrix_to_tensor"}
+
+
+def silent_ok(d):
+    """malformed-stream entries whose reconstruction is legitimate although the validator rejects them: a partial Tucker product
+    (fewer factors than core modes, or a superfluous factor that is skipped) is documented behaviour of multi_mode_dot"""
+    if d["kind"] == "tucker":
+        core, fs, skip = d["core"], list(d["fs"]), d.get("skip")
+        if d.get("tr"):
+            fs = [f.T for f in fs]
+        used = [(i, f) for i, f in enumerate(fs) if i != skip]
+        return all(f.ndim == 2 and i < core.ndim and f.shape[1] == core.shape[i] for i, f in used)
+    if d["kind"] == "tr":   # a ring of ONE core (the validator wants two): its trace is a meaningful contraction
+        cs = d["cores"]
+        return len(cs) == 1 and cs[0].ndim == 3 and cs[0].shape[0] == cs[0].shape[2]
+    return False
+
+
+def clf_unvalidated(f):
+    return f["inputs"].get("silent") is True and f["inputs"].get("input_kind") == "tuple"
+
+
 def clf_setitem_stale(f):
     return f["inputs"].get("setitem") == "reshaping" and f["inputs"].get("input_kind") == "wrapper"
 
 
-CLASSIFIERS = {"wrapper_setitem_stale_cache": clf_setitem_stale}
+CLASSIFIERS = {"wrapper_setitem_stale_cache": clf_setitem_stale, "unvalidated_reconstruction": clf_unvalidated}
 
 
 def describe(d):
@@ -982,7 +1024,7 @@ SETITEM_EP = {"cp": "tensorly.cp_tensor.CPTensor.__setitem__", "tucker": "tensor
 
 def ein_view(d, be, malformed, vl):
     # the einsum routes of CP (khatri_rao), Tucker (multi_mode_dot) and the TT-matrix have their own models in Model/Factorized.v
-    return f"(VEin {vl})" if d["kind"] in ("ttm", "cp", "tucker") and be == "einsum" and not malformed else vl
+    return f"(VEin {vl})" if be == "einsum" and (d["kind"] in ("ttm", "tucker") or (d["kind"] == "cp" and not malformed)) else vl
 
 
 def check_decomp(chk, d, rng, malformed, record=True):
@@ -1022,13 +1064,18 @@ def check_decomp(chk, d, rng, malformed, record=True):
             msg = view_predicate(dcur, v, res, dense)
         elif v[0] == "validate" and res[0] == "ok":
             msg = f"structurally invalid factor set ({dcur.get('why', '?')}) accepted with (shape, rank) = {res[1]}"
+        elif v[0] in ("tensor", "vec", "unfolded", "matrix", "slice", "slices") and res[0] == "ok" and route[1] == "tuple" and not silent_ok(dcur):
+            # the validator (checked above) rejects this set; the reconstruction function must not return a tensor for it
+            msg = (f"structurally invalid factor set ({dcur.get('why', '?')}) silently reconstructed by {FN.get((dcur['kind'], v[0]), v[0])} "
+                   f"under the {route[0]} tenalg backend (no error; the validator rejects the set)")
+            ep, extra = SILENT_EP.get(dcur["kind"], ep), {"silent": True}
         if msg:
             if phase == "reshaping":
                 ep = SETITEM_EP.get(d["kind"], ep); extra = {"setitem": "reshaping"}
             msgs.append((route, v, msg, phase))
             if record:
                 chk.finding(ep, dict(describe(dcur), view=vname(v), backend=route[0], input_kind=route[1], phase=phase, data=payload_arrays(d), **extra), msg,
-                            "C03_view_agrees_with_defining_contraction" if wf else "C03_invalid_rejected")
+                            "C03_view_agrees_with_defining_contraction" if wf else ("C03_invalid_not_silently_reconstructed" if extra.get("silent") else "C03_invalid_rejected"))
     for route, v, step in unstable:
         msg = f"taking view {vname(v)} (step {step}) changed the stored factors"
         msgs.append((route, v, msg))
@@ -1173,7 +1220,8 @@ def run(chk):
                        "(the einsum TT-matrix route against its own model), "
                        "as tuple (one CViews case) and as wrapper-object HISTORY per backend (CObj cases run through the object model: construction, shuffled multi-step views with repeats, a shape-preserving __setitem__ phase after which the views must follow the new contents, and a shape-changing one = the classified known-finding class); plus mixed-dtype variants (int64 indicator / float32 / float64, half-integer floats, one complex array); CP: all shapes of order 1-3 over {1,2,3} (+ sampled order 4; thorough: all) x rank {1,2,3} x "
                        "weights {None, ones, signed non-unit} + masked; Tucker/TT/TR: all shapes of order 1-2 + sampled order 3-4 with random ranks in {1,2,3} incl. rank > dim, skip_factor, transpose_factors; "
-                       "TT-matrix with 1-3 cores; PARAFAC2 with uneven slices; plus a malformed stream (mismatched ranks, wrong boundary ranks, open rings, wrong ndim, non-orthonormal and dyadic sub-orthonormal projections (validator through the model at Q), wrong counts, 1-D factors, a non-square PARAFAC2 B that must be rejected late); "
+                       "TT-matrix with 1-3 cores; PARAFAC2 with uneven slices; plus a malformed stream (mismatched ranks, wrong boundary ranks, open rings, wrong ndim, non-orthonormal and dyadic sub-orthonormal projections (validator through the model at Q), wrong counts, 1-D factors, a non-square PARAFAC2 B that must be rejected late, "
+                       "operands np.einsum can broadcast: size-1 core modes / one-column factors / inner rank r against 1 / open boundary ranks, a TT with first boundary rank r0 and fitting rank products) observed through EVERY view under BOTH backends: Ok-with-the-same-value / Err exactly as the model says, and any reconstruction returned for a set the validator rejects is a finding (classified known finding: unvalidated_reconstruction); "
                        "evaluations = implementation calls; a case is non-trivial if some factor has more than one entry; distinct key = (family, factor shapes, weights kind, options, malformation)")
     for b in broken:
         chk.broken.append({"what": "correspondence corr:C03 shard not evaluated", "detail": b})
@@ -1184,7 +1232,7 @@ def run(chk):
                        "the to_tensor routes are modelled for 2-D (and, rank 1, 1-D) CP factors, 2-D Tucker factors, 3-D TT/TR cores, 4-D TT-matrix cores; other ndims only through the validators",
                        "mixed-dtype / complex / half-integer factor sets are compared by VALUE after exact conversion (the model has no dtype); a complex array is split into two integer cases by linearity",
                        "NumPy reshape/moveaxis/transpose behave as modelled in Base/Tensor.v (validated by C01's primitive cases)"]
-    chk.trusted += ["einsum backend: the einsum routes of CP (khatri_rao), Tucker (multi_mode_dot) and the TT-matrix are modelled separately (value of the single np.einsum call) and proved equal to the core routes on well-formed input; TT / TR / PARAFAC2 run the same code under both backends; on malformed operands only validators and core routes are compared",
+    chk.trusted += ["einsum backend: the einsum routes of CP (khatri_rao), Tucker (multi_mode_dot) and the TT-matrix are modelled separately (value of the single np.einsum call) and proved equal to the core routes on well-formed input; TT / TR / PARAFAC2 run the same code under both backends; on malformed operands the Tucker and TT-matrix einsum routes are compared against models with np.einsum's broadcasting / summed-boundary semantics (tucker_to_tensor_einsum_b, ein_chain); the einsum khatri_rao of CP is reached only after _validate_cp_tensor and is compared on accepted sets only",
                     "PARAFAC2 orthonormality threshold 1e-5 is modelled exactly (P^T P = I) which coincides on integer-valued projections"]
     _orig_load = C.load_known
 
